@@ -68,7 +68,7 @@ def w_mc_replay(ops, rng, n):
 
 W_MC_REPLAY = dict(name='tlc-behaviours-replayed', gen=w_mc_replay, replayable=True)
 M_PARSER = dict(module='MC_Parser', cfg_quick='MC_Parser_quick', cfg_thorough='MC_Parser_thorough', post=[collect_behaviours],
-                timeout=3000)
+                timeout=7000)
 
 W_WPT_URL = dict(name='wpt-url', gen=w_wpt_url)
 W_WPT_SET = dict(name='wpt-setters', gen=w_wpt_setters)
@@ -151,7 +151,7 @@ ASSUME_PARAMS = ['the TLA+ transcription of the URL Standard\'s URLSearchParams 
                  'iterators are used within the lifetime of their params object; ada_strings_get only with index < size']
 _PMOD = dict(module='TraceParams', main='params_main.cpp')
 M_PARAMS = dict(module='MC_SearchParams', cfg_quick='MC_SearchParams_quick', cfg_thorough='MC_SearchParams_thorough',
-                post=[gen_params.collect_behaviours], timeout=3000)
+                post=[gen_params.collect_behaviours], timeout=7000)
 W_P_REPLAY = dict(name='tlc-behaviours-replayed', gen=gen_params.mc_replay, replayable=True, configs_quick=['default'],
                   configs_thorough=['default', 'asan'], **_PMOD)
 # one workload = one record+validate run (16 shards, 16 JVM starts: ~25 s fixed), so the random histories, the
@@ -212,8 +212,8 @@ ASSUME_IDNA = ['oracle = the TLA+ transcription of UTS #46 / RFC 3492 / RFC 5892
                'inputs are valid UTF-8']
 
 M_IDNA = dict(module='MC_Idna', cfg_quick='MC_Idna_quick', cfg_thorough='MC_Idna_thorough', post=[collect_idna_behaviours],
-              timeout=3000)
-M_IDNA_WIDE = dict(module='MC_Idna', cfg_quick='MC_Idna_pairs', cfg_thorough='MC_Idna_triples', post=[collect_idna_behaviours], timeout=6000)
+              timeout=7000)
+M_IDNA_WIDE = dict(module='MC_Idna', cfg_quick='MC_Idna_pairs', cfg_thorough='MC_Idna_pairs', post=[collect_idna_behaviours], timeout=7000)
 W_IDNA_REPLAY = WI('tlc-strings-replayed', w_idna_replay)
 W_IDNA_VEC = WI('spec-vs-wpt-vectors', gen_idna.w_spec_vectors, replayable=False)
 W_IDNA_WPT = WI('wpt-idna-inputs', gen_idna.w_wpt_inputs, 1, 0)
@@ -343,7 +343,7 @@ def w_obj_replay(ops, rng, n):
 
 
 M_OBJ = dict(module='MC_UrlObject', cfg_quick='MC_UrlObject_quick', cfg_thorough='MC_UrlObject_thorough', post=[collect_obj_behaviours],
-             timeout=3000)
+             timeout=7000)
 W_OBJ_REPLAY = dict(name='tlc-histories-replayed', gen=w_obj_replay, n_quick=2500, n_thorough=60000, replayable=True)
 for _p in ('C03', 'C07', 'C19'):
     PROPS[_p].setdefault('models', []).append(M_OBJ)
@@ -424,7 +424,7 @@ def w_host_replay(ops, rng, n):
             ops.set(3, 'host', h)
 
 
-M_HOST = dict(module='MC_Host', cfg_quick='MC_Host_quick', cfg_thorough='MC_Host_thorough', post=[collect_host_behaviours], timeout=3000)
+M_HOST = dict(module='MC_Host', cfg_quick='MC_Host_quick', cfg_thorough='MC_Host_thorough', post=[collect_host_behaviours], timeout=7000)
 PROPS['C10'].setdefault('models', []).append(M_HOST)
 PROPS['C10']['workloads'].insert(0, dict(name='tlc-spellings-replayed', gen=w_host_replay, n_quick=4000, n_thorough=0, replayable=True))
 
@@ -463,7 +463,7 @@ def w_pat_replay(ops, rng, n):
 
 
 M_PAT = dict(module='MC_UrlPattern', cfg_quick='MC_UrlPattern_quick', cfg_thorough='MC_UrlPattern_thorough', post=[collect_pat_behaviours],
-             timeout=3000)
+             timeout=7000)
 for _p in ('C14', 'C15'):
     PROPS[_p].setdefault('models', []).append(M_PAT)
     PROPS[_p]['workloads'].insert(2, WPAT('tlc-constructor-strings-replayed', w_pat_replay, 1500, 0, replayable=True))
@@ -471,8 +471,8 @@ for _p in ('C14', 'C15'):
 
 # ---- direction A + B for the C API handle layer: MC_CApi (spec/CApi.tla), replayed on the ASan + LSan build
 import gen_capi
-M_CAPI = dict(module='MC_CApi', cfg_quick='MC_CApi_quick', cfg_thorough='MC_CApi_quick', post=[gen_capi.collect], timeout=3000)
-M_CAPI_SIM = dict(module='MC_CApi', cfg='MC_CApi_sim', post=[gen_capi.collect], timeout=3000,
+M_CAPI = dict(module='MC_CApi', cfg_quick='MC_CApi_quick', cfg_thorough='MC_CApi_quick', post=[gen_capi.collect], timeout=7000)
+M_CAPI_SIM = dict(module='MC_CApi', cfg='MC_CApi_sim', post=[gen_capi.collect], timeout=7000,
                   extra=('-simulate', 'num=400', '-depth', '18', '-seed', '17', '-aril', '0'))
 PROPS['C17'].setdefault('models', []).extend([M_CAPI, M_CAPI_SIM])
 PROPS['C17']['workloads'].insert(0, dict(name='tlc-handle-histories-replayed', gen=gen_capi.replay, n_quick=900, n_thorough=0, replayable=True,
